@@ -354,8 +354,12 @@ func (b *Book) ingestSwap(o *HTTPObs) {
 		// byte-for-byte idempotent replay (NUT-19) or identical outputs: not a new consumption
 		b.w.S.Stats["book_swap_replay"]++
 	}
-	for sec := range seenSec {
-		b.consume(m, sec, req.Inputs, ConsRec{Kind: "swap", Key: key, Seq: o.RetSeq})
+	doneSec := map[string]bool{}
+	for _, p := range req.Inputs { // request order, each secret once
+		if !doneSec[p.Secret] {
+			doneSec[p.Secret] = true
+			b.consume(m, p.Secret, req.Inputs, ConsRec{Kind: "swap", Key: key, Seq: o.RetSeq})
+		}
 	}
 	b.checkGenuine(m, req.Inputs, "swap")
 	// balance
